@@ -469,6 +469,7 @@ func Cow(p *core.Prog, r *core.Report) {
 
 	// --- call sites of the compile functions -------------------------------------
 	nSites := 0
+	irSeq := map[string]int{}
 	for _, f := range p.Funcs {
 		core.EachInstr(f, func(i ssa.Instruction) {
 			c, ok := i.(*ssa.Call)
@@ -511,6 +512,24 @@ func Cow(p *core.Prog, r *core.Report) {
 			// validation failure is returned — a silent `continue` drops the keyword the pattern belongs to
 			// (part of C15's statement only; the cache-safety users of COW do not ask for it)
 			if cowInvalidReported {
+				// keyed by the validator type and the source of the pattern, not by the function the call happens to
+				// sit in: an extracted helper is the same site
+				owner := core.FuncName(core.EnclosingTop(f))
+				if rc := core.EnclosingTop(f).Signature.Recv(); rc != nil {
+					if n := core.NamedOf(rc.Type()); n != nil {
+						owner = n.Obj().Name()
+					}
+				}
+				srcDesc := describe(c.Call.Args[0])
+				if k := strings.LastIndex(srcDesc, " over "); k >= 0 {
+					srcDesc = "key of " + srcDesc[k+6:]
+				}
+				irBase := "invalid-reported:" + owner + ":" + srcDesc
+				irSeq[irBase]++
+				irKey := irBase
+				if irSeq[irBase] > 1 {
+					irKey = fmt.Sprintf("%s#%d", irBase, irSeq[irBase])
+				}
 				reported := false
 				if errV != nil {
 					core.EachInstr(f, func(j ssa.Instruction) {
@@ -536,9 +555,9 @@ func Cow(p *core.Prog, r *core.Report) {
 					})
 				}
 				if reported {
-					r.OK(rule, site+":invalid-reported", p.Pos(c.Pos()), "a pattern that does not compile is reported on the error edge")
+					r.OK(rule, irKey, p.Pos(c.Pos()), "a pattern that does not compile is reported on the error edge")
 				} else {
-					r.Bad(rule, site+":invalid-reported", p.Pos(c.Pos()), "a pattern that does not compile is dropped silently at this call site (nothing is added to a result and no error is returned on the err != nil edge): the keyword it belongs to is simply not enforced and the schema's defect is never reported")
+					r.Bad(rule, irKey, p.Pos(c.Pos()), "a pattern that does not compile is dropped silently at this call site (nothing is added to a result and no error is returned on the err != nil edge): the keyword it belongs to is simply not enforced and the schema's defect is never reported")
 				}
 			}
 			if re == nil || len(core.Refs(re)) == 0 {
